@@ -224,7 +224,11 @@ pub fn catch<T>(f: impl FnOnce() -> T) -> Result<T, PanicSite> {
     LAST_PANIC.with(|p| *p.borrow_mut() = None);
     match std::panic::catch_unwind(std::panic::AssertUnwindSafe(f)) {
         Ok(v) => Ok(v),
-        Err(_) => Err(LAST_PANIC.with(|p| p.borrow_mut().take()).unwrap_or(PanicSite {
+        Err(_) => Err(LAST_PANIC
+            .with(|p| p.borrow_mut().take())
+            // a panic on a rayon / worker thread is re-raised here: take the most recent record
+            .or_else(|| ANY_THREAD_PANICS.lock().ok().and_then(|v| v.last().cloned()))
+            .unwrap_or(PanicSite {
             file: "?".into(),
             line: 0,
             message: "?".into(),
